@@ -442,9 +442,9 @@ class BlockEval(PureEval):
             if isinstance(base, (set, frozenset)):
                 args = [self.ev(a, env) for a in node.args]
                 if m == "pop" and not args:
-                    if len(base) != 1:
+                    if len(base) != 1 and not (getattr(self, "arbitrary_pop", False) and base):
                         raise FevalError("pop() from a set that is not a singleton")
-                    x = next(iter(base))
+                    x = sorted(base, key=repr)[0]  # (with arbitrary_pop: any member - the caller only asks whether the block raises)
                     env[node.func.value.id] = set(base) - {x}
                     return x
                 if m in ("remove", "discard"):
